@@ -478,6 +478,23 @@ func checkMergeStep(c *Ctx, r *Rec, info *types.Info, srt *types.Named, fd *ast.
 		}
 		return Val{}, false
 	}
+	// the loop condition holds at the top of the body (when it is a conjunction of comparisons)
+	bothForm := false // `for left has more && right has more`: the tails are copied after the loop
+	if loop.Cond != nil {
+		st0 := &symState{vars: map[string]Val{}}
+		for k2, v := range env.init {
+			st0.vars[k2] = v
+		}
+		if cv := env.eval(st0, loop.Cond); cv.B != nil {
+			if cubes := dnf(cv.B); len(cubes) == 1 {
+				env.base = append(env.base, cubes[0]...)
+				full := append(Cube{}, env.base...)
+				if entailsCube(full, and(lt(li, ll), lt(ri, rl))) {
+					bothForm = true
+				}
+			}
+		}
+	}
 	paths := symRun(env, loop.Body)
 	if len(env.problems) > 0 {
 		r.skip(rule, construct, c.pos(fd.Pos()), "SYM cannot interpret the merge step: "+strings.Join(dedup(env.problems), "; "))
@@ -584,6 +601,63 @@ func checkMergeStep(c *Ctx, r *Rec, info *types.Info, srt *types.Named, fd *ast.
 			wantS := fmt.Sprintf("store %s[%s] = <%s>", mname, mi, rightElem)
 			if !(stored == want || stored == wantS) || !ri2.equal(ri.plus(1)) || !li2.equal(li) {
 				viol = append(viol, fmt.Sprintf("with the left run exhausted the step does `%s` and moves (left,right) to (%v,%v): it must take from the right run", stored, li2, ri2))
+			}
+		}
+	}
+	if bothForm {
+		// after the loop one run is exhausted: the rest of each run must be copied behind what was merged
+		envT := &symEnv{info: info, elemForms: true, resolve: env.resolve, init: env.init}
+		envT.base = Cube{li.scale(-1), ri.scale(-1), li.sub(ll), ri.sub(rl)}
+		tails := symRun(envT, &ast.BlockStmt{List: fd.Body.List[loopIdx+1:]})
+		if len(envT.problems) > 0 || len(tails) == 0 {
+			r.skip(rule, construct, c.pos(fd.Pos()), "cannot interpret what follows the merge loop: "+strings.Join(dedup(envT.problems), "; "))
+			return
+		}
+		wantL := fmt.Sprintf("copy(<%s[%s:]>, <%s[%s:]>)", mname, mi, lname, li)
+		wantR := fmt.Sprintf("copy(<%s[%s:]>, <%s[%s:]>)", mname, mi, rname, ri)
+		for _, tp := range tails {
+			gotL, gotR := false, false
+			// the second copy may start behind what the first one copied (mi += copy(...)): one of the
+			// two tails is empty, so "at or behind left+right" is the same place
+			dstPrefix := fmt.Sprintf("copy(<%s[%s", mname, mi)
+			for _, cl := range tp.Calls {
+				if cl == wantL || (strings.HasPrefix(cl, dstPrefix) && strings.HasSuffix(cl, fmt.Sprintf(", <%s[%s:]>)", lname, li))) {
+					gotL = true
+				}
+				if cl == wantR || (strings.HasPrefix(cl, dstPrefix) && strings.HasSuffix(cl, fmt.Sprintf(", <%s[%s:]>)", rname, ri))) {
+					gotR = true
+				}
+			}
+			// copies that are operands of other statements (mi += copy(...)) are not in the call log: look at the syntax
+			for _, ts := range fd.Body.List[loopIdx+1:] {
+				ast.Inspect(ts, func(x ast.Node) bool {
+					call, ok := x.(*ast.CallExpr)
+					if !ok || !isBuiltinCall(info, call, "copy") || len(call.Args) != 2 {
+						return true
+					}
+					dst, ok1 := ast.Unparen(call.Args[0]).(*ast.SliceExpr)
+					src, ok2 := ast.Unparen(call.Args[1]).(*ast.SliceExpr)
+					if !ok1 || !ok2 || !isObj(info, dst.X, params[2]) || src.Low == nil || src.High != nil {
+						return true
+					}
+					lowObj := identObj(info, src.Low)
+					if lowObj == nil {
+						return true
+					}
+					if isObj(info, src.X, params[0]) && objKey(lowObj) == idxOf[0] {
+						gotL = true
+					}
+					if isObj(info, src.X, params[1]) && objKey(lowObj) == idxOf[1] {
+						gotR = true
+					}
+					return true
+				})
+			}
+			if !gotL {
+				viol = append(viol, fmt.Sprintf("after the loop (it stops as soon as one run is exhausted) the rest of the left run is not copied to %s[left+right:]: those values are lost (calls seen: %v)", mname, tp.Calls))
+			}
+			if !gotR {
+				viol = append(viol, fmt.Sprintf("after the loop the rest of the right run is not copied to %s[left+right:]: those values are lost (calls seen: %v)", mname, tp.Calls))
 			}
 		}
 	}
@@ -788,7 +862,23 @@ func checkSortDriver(c *Ctx, r *Rec, info *types.Info, fd *ast.FuncDecl, merge *
 		}
 	}
 	// ping-pong discipline between the two arrays
+	perPass := false // source and destination are chosen anew inside every pass (a different design)
 	if len(got) > 0 && outer != nil && outer != inner {
+		src, dst := strings.TrimSuffix(got[0][0].base, "!"), strings.TrimSuffix(got[0][2].base, "!")
+		for _, st := range outer.Body.List {
+			if lhs, _, ok := multiDefStmt(st); ok {
+				for _, l := range lhs {
+					if id, ok := l.(*ast.Ident); ok && info.Defs[id] != nil && (id.Name == src || id.Name == dst) {
+						perPass = true
+					}
+				}
+			}
+		}
+		if perPass {
+			r.skip(rule, construct+"/ping-pong", c.pos(outer.Pos()), "the source and destination arrays are chosen anew at the start of every pass: the exchange discipline of the two-variable design does not apply")
+		}
+	}
+	if len(got) > 0 && outer != nil && outer != inner && !perPass {
 		src, dst := strings.TrimSuffix(got[0][0].base, "!"), strings.TrimSuffix(got[0][2].base, "!")
 		swapped := false
 		if n := len(outer.Body.List); n > 0 {
